@@ -29,7 +29,7 @@ ASSUMPTIONS = [
 ]
 CONFIG = {
     "quick": {"examples": 128, "shards": 16, "shrink_s": 60, "time_budget_s": 280},
-    "thorough": {"examples": 800, "shards": 16, "shrink_s": 240, "time_budget_s": 1500},
+    "thorough": {"examples": 2400, "shards": 16, "shrink_s": 240, "time_budget_s": 1500},
 }
 
 
